@@ -25,6 +25,7 @@ type input struct {
 	Timeout    time.Duration `json:"nat_timeout"`
 	Ops        []udpx.Op     `json:"ops"`
 	SlowRemove time.Duration `json:"slow_remove,omitempty"` // every removal report takes this long: the teardown window is open for that time
+	Listeners  int           `json:"listeners,omitempty"`   // UDP listeners of the service (one handler)
 }
 
 type assoc struct {
@@ -293,12 +294,12 @@ func contains(addrs []string, port string) bool {
 
 func menu(T time.Duration) []udpx.Op {
 	return []udpx.Op{
-		{K: "S", C: 0, Key: 0, T: 0, N: 30},  // DNS query
-		{K: "S", C: 0, Key: 0, T: 1, N: 30},  // non-DNS
-		{K: "S", C: 1, Key: 1, T: 3, N: 12},  // second client, DNS
+		{K: "S", C: 0, Key: 0, T: 0, N: 30},                      // DNS query
+		{K: "S", C: 0, Key: 0, T: 1, N: 30},                      // non-DNS
+		{K: "S", C: 1, Key: 1, T: 3, N: 12},                      // second client, DNS
 		{K: "S", C: 1, Key: 1, N: 9, Mod: "raw:93.184.216.34:0"}, // the write to the target fails (port 0)
-		{K: "R", C: 0, T: 0, N: 50},          // reply from port 53
-		{K: "R", C: 0, T: 1, N: 50},          // reply from port 80
+		{K: "R", C: 0, T: 0, N: 50},                              // reply from port 53
+		{K: "R", C: 0, T: 1, N: 50},                              // reply from port 80
 		{K: "R", C: 1, T: 3, N: 50},
 		{K: "S", C: 0, Key: 0, T: 6, N: 21}, // port 8053: not DNS
 		{K: "R", C: 0, T: 6, N: 22},
@@ -350,7 +351,7 @@ func scenario(in input) *engine.Scenario {
 	tr := &udpx.Trace{}
 	sc := &engine.Scenario{Name: "nat-life", Opt: vrt.Options{Horizon: udpx.Horizon}}
 	sc.Body = func() {
-		udpx.Run(udpx.Config{Keys: udpx.DefaultKeys(), NatTimeout: in.Timeout, SlowRemove: in.SlowRemove, ViaManager: in.SharedAddr, KeepOther: in.SharedAddr}, in.Ops, tr)
+		udpx.Run(udpx.Config{Keys: udpx.DefaultKeys(), NatTimeout: in.Timeout, SlowRemove: in.SlowRemove, ViaManager: in.SharedAddr, KeepOther: in.SharedAddr, Listeners: in.Listeners}, in.Ops, tr)
 	}
 	sc.Check = func(x *vrt.Exec) (string, bool, []*engine.Finding) {
 		fs := hk.Generic(x, hk.Opts{Leaks: true})
@@ -470,6 +471,22 @@ func init() {
 				ctx.RunCase("nat-shared-shutdown", "E", sc, in, nil)
 			}
 		}
+		// a service with two UDP listeners (one handler) loses one of them: the associations of the
+		// clients of the other listener keep their promise (reply relayed, same source afterwards)
+		for _, keep := range []int{0, 1} {
+			gone := 1 - keep
+			for _, T := range []time.Duration{300 * time.Second, 10 * time.Second} {
+				ops := []udpx.Op{{K: "S", C: gone, Key: gone, T: 1, N: 30, L: gone}, {K: "S", C: keep, Key: keep, T: 1, N: 12, L: keep}, {K: "QL", L: gone},
+					{K: "A", D: time.Second}, {K: "R", C: keep, T: 1, N: 20}, {K: "S", C: keep, Key: keep, T: 1, N: 9, L: keep}, {K: "A", D: T - 2*time.Second}, {K: "R", C: keep, T: 1, N: 7}}
+				idx++
+				if ctx.Mine(idx) {
+					in := input{Timeout: T, Ops: ops, Listeners: 2}
+					sc := scenario(in)
+					sc.Name = "nat-listener-dropped"
+					ctx.RunCase("nat-listener-dropped", "E", sc, in, nil)
+				}
+			}
+		}
 		// teardown windows: the removal report takes 2 ms, and client datagrams, replies and a
 		// second client arrive inside, at the edges of and after the window
 		for i, in := range windowInputs() {
@@ -492,7 +509,7 @@ func init() {
 			return []*engine.Finding{{Sig: "BROKEN:bad-input", Msg: err.Error()}}
 		}
 		rp.Choices = nil
-		if rp.Unit == "nat-window" || rp.Unit == "nat-shared-shutdown" {
+		if rp.Unit == "nat-window" || rp.Unit == "nat-shared-shutdown" || rp.Unit == "nat-listener-dropped" {
 			return engine.ReplayCase(rp.Unit, scenario(in), rp)
 		}
 		return engine.ReplayCase("nat-life", scenario(in), rp)
